@@ -154,6 +154,72 @@ deliver_forged(tp_ep *ep, const unsigned char *rec, size_t rl, size_t plen)
 	return got == plen && !ep->rx_bad ? 1 : -1;
 }
 
+/*
+ * The negotiated flag over the life of a client context: the same br_ssl_client_context is reset
+ * and used for several connections (with and without session resumption) against servers that echo
+ * the extension (larger limit than requested) and servers that do not (their own limit is not
+ * larger); after each handshake the flag must equal the presence of the extension in THAT
+ * ServerHello.
+ */
+static void
+reuse_cases(long long seed, int worker, int nworkers)
+{
+	static const uint16_t suites[3] = { 0x002F, 0xC02F, 0xCCA8 };
+	int ci, pat, resume;
+	long idx = 0;
+	/* patterns of servers: 1 = echoes (full-size buffers), 0 = does not (512 class) */
+	static const int pats[6][4] = { { 1, 0, 1, 0 }, { 0, 1, 0, 0 }, { 1, 1, 0, 1 }, { 0, 0, 1, 1 }, { 1, 0, 0, 1 }, { 0, 1, 1, 0 } };
+	for (ci = 0; ci < 3; ci ++) for (pat = 0; pat < 6; pat ++) for (resume = 0; resume < 2; resume ++) {
+		tp_pair p;
+		tp_cfg cc, sc;
+		uint16_t sl[1];
+		int k;
+		char what[200];
+		if ((idx ++ % nworkers) != worker) continue;
+		tp_pair_init(&p, (uint64_t)seed, 161, TP_CHUNK_WHOLE);
+		for (k = 0; k < 4; k ++) {
+			const unsigned char *ev;
+			size_t vl;
+			int echoed, flag;
+			tp_cfg_default(&cc, 0); tp_cfg_default(&sc, 1);
+			cc.layout = TP_LAYOUT_MONO; cc.buflen = 512 + 325 + (size_t)ci;
+			cc.reuse_ctx = k > 0; cc.resume = resume && k > 0;
+			if (pats[pat][k]) { sc.layout = TP_LAYOUT_SPLIT2; sc.buflen = BR_SSL_BUFSIZE_INPUT; sc.buflen_out = BR_SSL_BUFSIZE_OUTPUT; }
+			else { sc.layout = TP_LAYOUT_SPLIT2; sc.buflen = 512 + 325; sc.buflen_out = 512 + 85; }
+			sl[0] = suites[ci]; cc.suites = sl; cc.nsuites = 1; cc.vmin = cc.vmax = suites[ci] == 0x002F ? 0x0301 : 0x0303;
+			sc.keykind = tp_key_for_suite(tp_suite_find(sl[0]), 0);
+			memset(cc.seed, 0x21 + k, 32); memset(sc.seed, 0x41 + k, 32);
+			snprintf(tp_case, sizeof tp_case, "seed=%lld reuse suite=%04x client-buffer=%zu pattern=%d%d%d%d resume=%d connection=%d",
+				seed, sl[0], cc.buflen, pats[pat][0], pats[pat][1], pats[pat][2], pats[pat][3], resume, k + 1);
+			/* a fresh server each time (it would otherwise resume; resumption is tried with a server cache below) */
+			tp_ep_free(&p.s);
+			p.c2s.rd = p.c2s.wr = 0; p.s2c.rd = p.s2c.wr = 0;
+			/* a new connection: a new independent decoder */
+			if (k > 0) rm_free(&Z.pm.m.rm);
+			memset(&Z, 0, sizeof Z);
+			tm_pair_attach(&Z.pm, &p);
+			if (!tp_ep_start(&p.c, &cc) || !tp_ep_start(&p.s, &sc)) { TP_VIOL("setup:reset-failed", "reset failed"); break; }
+			p.c.tx_key = Z.pm.m.key[0]; p.c.rx_key = Z.pm.m.key[1]; p.s.tx_key = Z.pm.m.key[1]; p.s.rx_key = Z.pm.m.key[0];
+			if (!tp_handshake(&p, 1000000)) { TP_VIOL("reuse:handshake-failed", "handshake on a reused client context failed"); break; }
+			ev = find_ext(Z.pm.m.rm.last_sh, Z.pm.m.rm.last_sh_len, 1, 1, &vl);
+			echoed = ev != NULL;
+			flag = br_ssl_engine_get_mfln_negotiated(p.c.eng) != 0;
+			vf_stat("reuse_connections", 1);
+			vf_distinct("reuse_step", "conn%d prev%d echoed%d resume%d", k + 1, k ? pats[pat][k - 1] : -1, echoed, resume);
+			if (echoed != pats[pat][k]) vf_stat("reuse_unexpected_echo_behaviour", 1);
+			if (flag != echoed) {
+				snprintf(what, sizeof what, "ServerHello of this connection %s the max_fragment_length extension but br_ssl_engine_get_mfln_negotiated() returns %d",
+					echoed ? "carries" : "does not carry", flag);
+				TP_VIOL("mfl:negotiated-flag-stale-on-reused-context", what);
+			} else vf_stat("reuse_flag_matches", 1);
+			tp_run_data(&p, 200, 200, TP_W_SMALL, 200000);
+			tp_run_close(&p, 0, 100000);
+		}
+		rm_free(&Z.pm.m.rm);
+		tp_pair_free(&p);
+	}
+}
+
 int
 main(int argc, char **argv)
 {
@@ -432,6 +498,7 @@ main(int argc, char **argv)
 		rm_free(&Z.pm.m.rm);
 		tp_pair_free(&p);
 	}
+	reuse_cases(seed, worker, nworkers);
 	vf_stat("monitored_calls", tp_calls);
 	vf_done();
 	return 0;
